@@ -2342,6 +2342,258 @@ def coq_rows(rs):
 
 
 # ---------------------------------------------------------------------------------------
+# 6c. save_performance_midi: argument dispatch; Performance(...): track renumbering (Model/C20_Track.v)
+
+TRACK_KINDS = ["Performance", "PerformanceUnique", "PPart", "List", "List", "List", "Tuple", "ListForeign", "Other"]
+
+
+def gen_track_case(rng):
+    kind = rng.choice(TRACK_KINDS)
+    style = rng.choice(["all_zero", "canonical", "mixed", "mixed", "sparse"])
+    nparts = 1 if kind == "PPart" else 0 if kind == "Other" else rng.choice([0, 1, 2, 2, 2, 3])
+    parts = []
+    for i in range(nparts):
+        pool = {"all_zero": [0], "canonical": [i], "mixed": [None, 0, 1, 2], "sparse": [None, 0, 3, 7]}[style]
+        parts.append({"notes": [rng.choice(pool) for _ in range(rng.choice([0, 0, 1, 2, 3, 4]))],
+                      "controls": [rng.choice(pool) for _ in range(rng.choice([0, 0, 1, 2]))],
+                      "programs": [rng.choice(pool) for _ in range(rng.choice([0, 0, 0, 1]))]})
+    return {"kind": kind, "style": style, "parts": parts, "foreign_at": rng.randint(0, nparts) if kind == "ListForeign" else None}
+
+
+def build_track_parts(case):
+    import partitura.performance as P
+
+    pps = []
+    for k, ps in enumerate(case["parts"]):
+        def ev(base, t):
+            if t is not None:
+                base["track"] = t
+            return base
+        pps.append(P.PerformedPart(
+            [ev({"midi_pitch": 60 + j, "note_on": 0.25 * j, "note_off": 0.25 * j + 0.25, "velocity": 64, "id": "n%d_%d" % (k, j)}, t)
+             for j, t in enumerate(ps["notes"])], id="PP%d" % k,
+            controls=[ev({"time": 0.25 * j, "number": 64, "value": 64}, t) for j, t in enumerate(ps["controls"])],
+            programs=[ev({"time": 0.0, "program": 3 + j}, t) for j, t in enumerate(ps["programs"])]))
+    return pps
+
+
+def track_entries(pps):
+    """the `track` entries of the notes / controls / programs of every part (None = key absent)"""
+    def col(evs):
+        return [e.get("track", None) for e in evs]
+    return [[col(pp.notes), col(pp.controls), col(pp.programs)] for pp in pps]
+
+
+def run_track(case):
+    """-> (argument as the model sees it, outcome, entries afterwards, outcome of a second call, entries after it)"""
+    import partitura.performance as P
+    from partitura.io.exportmidi import save_performance_midi
+
+    pps = build_track_parts(case)
+    kind = case["kind"]
+    if kind in ("Performance", "PerformanceUnique"):
+        arg = P.Performance(pps, ensure_unique_tracks=(kind == "PerformanceUnique"))
+    elif kind == "PPart":
+        arg = pps[0]
+    elif kind == "List":
+        arg = list(pps)
+    elif kind == "Tuple":
+        arg = tuple(pps)
+    elif kind == "ListForeign":
+        arg = list(pps)
+        arg.insert(case["foreign_at"], 5)
+    else:
+        arg = 5
+    before = track_entries(pps)
+
+    def call():
+        try:
+            mf = save_performance_midi(arg, None)
+        except ValueError:
+            return "ValueError"
+        except IndexError:
+            return "IndexError"
+        return [sum(1 for m in t if m.type == "note_on") for t in mf.tracks]
+
+    out1 = call()
+    after1 = track_entries(pps)
+    out2 = call()
+    after2 = track_entries(pps)
+    return before, out1, after1, out2, after2
+
+
+def run_sanitize(case):
+    """Performance(parts) on a fresh build: entries before, afterwards, num_tracks"""
+    import partitura.performance as P
+
+    pps = build_track_parts(case)
+    before = track_entries(pps)
+    perf = P.Performance(pps)
+    return before, track_entries(pps), perf.num_tracks
+
+
+def py_canonical(entries):
+    """Model.C20_Track.canonical, independently: every event has a track entry and every (part, track) pair in use is numbered by its rank"""
+    keys = sorted({(i, t) for i, e in enumerate(entries) for col in e for t in col if t is not None})
+    return all(t is not None for e in entries for col in e for t in col) and all(k[1] == r for r, k in enumerate(keys))
+
+
+def coq_pp(e):
+    def tl(ts):
+        return "(@nil (option Z))" if not ts else clist([copt(t, cz) for t in ts])
+    return "(mk_pp %s %s %s)" % (tl(e[0]), tl(e[1]), tl(e[2]))
+
+
+def coq_pps(es):
+    return "(@nil ppart)" if not es else clist([coq_pp(e) for e in es])
+
+
+def coq_track_arg(case, before):
+    kind = case["kind"]
+    if kind in ("Performance", "PerformanceUnique"):
+        return "(APerformance %s)" % coq_pps(before)
+    if kind == "PPart":
+        return "(APPart %s)" % coq_pp(before[0])
+    if kind == "Other":
+        return "AOther"
+    els = ["(Some %s)" % coq_pp(e) for e in before]
+    if kind == "ListForeign":
+        els.insert(case["foreign_at"], "None")
+    return "(AIterable %s)" % ("(@nil (option ppart))" if not els else clist(els))
+
+
+def coq_track_out(out):
+    if out in ("ValueError", "IndexError"):
+        return "O" + out
+    return "(OFile %s)" % ("(@nil Z)" if not out else clist([cz(x) for x in out]))
+
+
+# ---------------------------------------------------------------------------------------
+# 6d. beat mode of a Part under histories of mode switches and exports (Model/C20_Beat.v)
+
+BEAT_SIGS = [(6, 8), (4, 4), (3, 4), (9, 8), (12, 8), (2, 2), (5, 8)]
+
+
+def gen_beat_case(rng):
+    sigs = rng.sample(BEAT_SIGS, rng.choice([1, 2, 2, 3]))
+    if rng.random() < 0.25:
+        sigs.append(sigs[0])  # the same signature again later in the piece
+
+    def table():
+        if rng.random() < 0.2:
+            return []
+        keys = [sg for sg in sigs if rng.random() < 0.6]
+        if rng.random() < 0.3:
+            keys.append((7, 4))  # a key no time signature of the part has
+        out = []
+        for b, bt in keys:
+            if (b, bt) not in [(x, y) for x, y, _ in out]:
+                out.append((b, bt, rng.choice([1, 2, 3, b, 2 * b])))
+        return out
+
+    hist = []
+    for _ in range(rng.choice([2, 3, 4, 5, 6])):
+        r = rng.random()
+        hist.append(["musical", table()] if r < 0.35 else ["notated"] if r < 0.5 else ["table", table()] if r < 0.65 else ["export", rng.choice(["midi_ts", "midi", "arrays"])])
+    if rng.random() < 0.5:  # the shape seed j needs: musical beats with a user table, then the export
+        hist = [["musical", table() or [(sigs[0][0], sigs[0][1], 3)]], ["export", "midi_ts"]] + hist[:3]
+    return {"sigs": sigs, "measures": rng.choice([1, 2]), "pickup": rng.random() < 0.5, "history": hist}
+
+
+class CpuGuard(object):
+    """CPU-time guard (ITIMER_VIRTUAL, never wall clock) around one call; raises _CpuTimeout (a BaseException)"""
+
+    def __init__(self, seconds):
+        self.seconds, self.on = seconds, False
+
+    def __enter__(self):
+        import signal
+        try:
+            signal.signal(signal.SIGVTALRM, _on_vtalrm)
+            signal.setitimer(signal.ITIMER_VIRTUAL, self.seconds)
+            self.on = True
+        except (ValueError, OSError):
+            pass  # not the main thread
+        return self
+
+    def __exit__(self, *exc):
+        import signal
+        if self.on:
+            signal.setitimer(signal.ITIMER_VIRTUAL, 0)
+        return False
+
+
+def build_beat_part(case):
+    import partitura.score as S
+
+    part = S.Part("P0", "beat", quarter_duration=8)
+    t, number = 0, 1
+    for k, (b, bt) in enumerate(case["sigs"]):
+        part.add(S.TimeSignature(b, bt), t)
+        full = b * 32 // bt
+        for m in range(case["measures"]):
+            ln = 32 // bt if (k == 0 and m == 0 and case["pickup"]) else full
+            part.add(S.Measure(number=number), t, t + ln)
+            part.add(S.Note(step="C", octave=4, voice=1, id="n%d" % number), t, t + ln)
+            number += 1
+            t += ln
+    return part
+
+
+def beat_state(part):
+    import partitura.score as S
+
+    return [bool(part._use_musical_beat), [[int(ts.beats), int(ts.beat_type), int(ts.musical_beats)] for ts in part.iter_all(S.TimeSignature)]]
+
+
+def run_beat(case):
+    """-> (state at the start, [state after each operation], [exception type of each export or None])"""
+    import warnings
+    from partitura.io.exportmidi import save_score_midi
+
+    part = build_beat_part(case)
+    start = beat_state(part)
+    states, raised = [], []
+    with warnings.catch_warnings():
+        warnings.simplefilter("ignore")
+        for op in case["history"]:
+            if op[0] == "musical":
+                part.use_musical_beat({"%d/%d" % (b, bt): m for b, bt, m in op[1]})
+            elif op[0] == "notated":
+                part.use_notated_beat()
+            elif op[0] == "table":
+                part.set_musical_beat_per_ts({"%d/%d" % (b, bt): m for b, bt, m in op[1]})
+            else:
+                try:
+                    with CpuGuard(10):
+                        if op[1] == "midi_ts":
+                            save_score_midi(part, None, anacrusis_behavior="time_sig_change")
+                        elif op[1] == "midi":
+                            save_score_midi(part, None)
+                        else:
+                            part.note_array(include_metrical_position=True, include_time_signature=True)
+                            part.beat_map(part.last_point.t)
+                    raised.append(None)
+                except _CpuTimeout:
+                    raised.append("CpuTimeout")
+                except Exception as e:
+                    raised.append(type(e).__name__)
+            states.append(beat_state(part))
+    return start, states, raised
+
+
+def coq_bstate(st):
+    return "(%s, %s)" % (cbool(st[0]), "(@nil tsig)" if not st[1] else clist(["(mk_ts %s %s %s)" % (cz(b), cz(t), cz(m)) for b, t, m in st[1]]))
+
+
+def coq_bop(op):
+    def tbl(t):
+        return "(@nil (Z * Z * Z))" if not t else clist([ctuple([cz(b), cz(bt), cz(m)]) for b, bt, m in t])
+    return {"musical": lambda: "(BMusical %s)" % tbl(op[1]), "notated": lambda: "BNotated", "table": lambda: "(BSetTable %s)" % tbl(op[1]),
+            "export": lambda: "BExport"}[op[0]]()
+
+
+# ---------------------------------------------------------------------------------------
 # 7. Negative side: documented in-place operations change the fingerprint; and the
 # fingerprint is sensitive to every kind of small direct write (self-test of the observer).
 
@@ -2783,7 +3035,7 @@ def run(ctx):
                        "what slice_notearray_by_time writes into a row when clipping is not compared (only that it is written into a copy)"]
     ctx.matchers[K1] = _k1_matcher
 
-    ok, why = ctx.coq_props(expect_min=43)
+    ok, why = ctx.coq_props(expect_min=62)
     proof_ok = ok
     nviol0 = len(ctx.violations)
 
@@ -3351,6 +3603,119 @@ def run(ctx):
     if sfail == [-1]:
         ctx.violation("Coq evaluation of the array model failed: " + sdetail[:600], {"kind": "coq"}, no_input=True)
 
+    # ---- (b5) save_performance_midi's argument dispatch and the Performance constructor's track renumbering -----------
+    tterms, tcases, t_bad, zterms, zcases, z_bad = [], [], [], [], [], []
+    for i in range(160 if quick else 1600):
+        tc_ = gen_track_case(rng)
+        try:
+            before, out1, after1, out2, after2 = run_track(tc_)
+            sb, sa, sn = run_sanitize(tc_)
+        except Exception as e:
+            ctx.count("track/raised %s" % type(e).__name__)
+            t_bad.append(len(tcases))
+            tcases.append((tc_, None, "raised %s: %s" % (type(e).__name__, e), None))
+            tterms.append("(AOther, OIndexError, (@nil ppart))")
+            continue
+        ctx.evaluations += 3
+        ctx.count("track/argument %s" % tc_["kind"])
+        ctx.count("track/outcome %s" % (out1 if isinstance(out1, str) else "file with %s track(s)" % min(len(out1), 3)))
+        if any(t is None for e in before for col in e for t in col):
+            ctx.count("track/an event without a track entry")
+        renumbers = sa != sb
+        if py_canonical(sb) == renumbers:
+            z_bad.append(len(zcases))
+        ctx.count("track/part list %s" % ("canonical (the constructor leaves it alone)" if py_canonical(sb) else "not canonical"))
+        if renumbers:
+            ctx.count("track/parts the Performance constructor renumbers" + (" (list / tuple argument)" if tc_["kind"] in ("List", "Tuple") else ""))
+            if tc_["kind"] in ("List", "Tuple"):
+                ctx.nontrivial(["track", tc_])
+        if after1 != before or after2 != before or out2 != out1:
+            t_bad.append(len(tcases))
+        tcases.append((tc_, before, out1, after1))
+        tterms.append(ctuple([coq_track_arg(tc_, before), coq_track_out(out1), coq_pps(after1)]))
+        zcases.append((tc_, sb, sa, sn))
+        zterms.append(ctuple([coq_pps(sb), coq_pps(sa), cnat(sn)]))
+    timp = "From PV Require Import Lib.Base Model.C20 Model.C20_Mut Model.C20_Track."
+    try:
+        tfail = ctx.coq_failing("track", timp, "", tterms, "track_ok", shard=600)
+        zfail = ctx.coq_failing("sanitize", timp, "", zterms, "sanitize_ok", shard=600)
+        tdetail = ""
+    except RuntimeError as e:
+        tfail, zfail, tdetail = [-1], [-1], str(e)[-800:]
+    ctx.obligation("correspondence: save_performance_midi on %d arguments (Performance built with and without ensure_unique_tracks, PerformedPart, "
+                   "list, tuple, list with a foreign element, int; 0-3 parts, track entries missing / all 0 / already unique / mixed): the outcome "
+                   "(ValueError / IndexError / note_on messages per MIDI track) and the track entries of the argument's notes, controls and "
+                   "programs afterwards are those of Model.C20_Track.save_perf_midi Direct (Coq track_ok)" % len(tterms), not tfail, tdetail or tfail[:5])
+    ctx.obligation("correspondence: Performance(parts) on %d fresh builds of the same parts rewrites the track entries to "
+                   "Model.C20_Track.sanitize and reports num_tracks (Coq sanitize_ok) -- the in-place operation a dispatch through the "
+                   "constructor would run on the caller's parts" % len(zterms), not zfail, tdetail or zfail[:5])
+    ctx.obligation("direct oracle: the track entries of every part given to save_performance_midi are as before after one and after two calls and "
+                   "both calls have the same outcome (%d arguments)" % len(tcases), not t_bad, t_bad[:5])
+    for i in sorted(set(t_bad) | {j for j in tfail if j >= 0})[:1]:
+        tc_, before, out1, after1 = tcases[i]
+        ctx.violation("save_performance_midi given a %s of parts with track entries [notes, controls, programs] %s: outcome %s, track entries "
+                      "afterwards %s" % (tc_["kind"], before, out1, after1), {"kind": "track", "case": tc_, "before": before, "outcome": out1, "after": after1})
+    ctx.obligation("direct oracle: Performance(parts) leaves the track entries of the parts alone exactly when the list is canonical (every event has "
+                   "a track, every (part, track) pair in use is numbered by its rank; theorem sanitize_fixpoint_iff) (%d part lists)" % len(zcases),
+                   not z_bad, z_bad[:5])
+    for i in sorted(set(z_bad) | {j for j in zfail if j >= 0})[:1]:
+        tc_, sb, sa, sn = zcases[i]
+        ctx.violation("Performance(parts) with track entries [notes, controls, programs] %s left them as %s, num_tracks %s: not the renumbering "
+                      "Model.C20_Track.sanitize computes" % (sb, sa, sn), {"kind": "sanitize", "case": tc_, "before": sb, "after": sa, "num_tracks": sn})
+    if tfail == [-1]:
+        ctx.violation("Coq evaluation of the track model failed: " + tdetail[:600], {"kind": "coq"}, no_input=True)
+
+
+    # ---- (b6) beat mode: histories of mode switches (in place, documented) and exports (must only read) ---------------
+    bterms, bcases, b_bad = [], [], []
+    for i in range(120 if quick else 1200):
+        bc_ = gen_beat_case(rng)
+        try:
+            bstart, bstates, braised = run_beat(bc_)
+        except Exception as e:
+            ctx.count("beat/raised %s" % type(e).__name__)
+            continue
+        ctx.evaluations += len(bstates)
+        ops = [o[0] for o in bc_["history"]]
+        for o in bc_["history"]:
+            ctx.count("beat/op %s" % (o[0] if o[0] != "export" else "export " + o[1]))
+        for r in braised:
+            if r is not None:
+                ctx.count("beat/export raised %s" % r)
+        prev, seedj_shape = bstart, False
+        for o, st in zip(bc_["history"], bstates):
+            if o[0] == "export":
+                if prev[0] and any(m != (2 if b == 6 else 3 if b == 9 else 4 if b == 12 else b) for b, _, m in prev[1]):
+                    seedj_shape = seedj_shape or o[1] == "midi_ts"
+                    ctx.count("beat/export in musical-beat mode with non-default musical beats")
+                if st != prev and len(bcases) not in b_bad:
+                    b_bad.append(len(bcases))
+            prev = st
+        if seedj_shape:
+            ctx.nontrivial(["beat", bc_])
+        bcases.append((bc_, bstart, bstates))
+        bterms.append(ctuple([coq_bstate(bstart), "(@nil bop)" if not bc_["history"] else clist([coq_bop(o) for o in bc_["history"]]),
+                              "(@nil bstate)" if not bstates else clist([coq_bstate(x) for x in bstates])]))
+    try:
+        bfail = ctx.coq_failing("beat", "From PV Require Import Lib.Base Model.C20 Model.C20_Mut Model.C20_Beat.", "", bterms, "beat_ok", shard=600)
+        bdetail = ""
+    except RuntimeError as e:
+        bfail, bdetail = [-1], str(e)[-800:]
+    ctx.obligation("correspondence: %d histories of use_musical_beat(table) / use_notated_beat() / set_musical_beat_per_ts(table) and exports "
+                   "(save_score_midi with anacrusis_behavior='time_sig_change' and default, note_array with metrical positions + beat_map) on real "
+                   "Parts with 1-4 time signatures (with / without pickup measure): (Part._use_musical_beat, musical_beats of every TimeSignature) "
+                   "after EVERY operation is the state Model.C20_Beat.brun ReadOnly computes (Coq beat_ok)" % len(bterms), not bfail, bdetail or bfail[:5])
+    ctx.obligation("direct oracle: every export inside a history of beat-mode switches leaves the beat mode and all musical_beats as they were "
+                   "(%d histories)" % len(bcases), not b_bad, b_bad[:5])
+    for i in sorted(set(b_bad) | {j for j in bfail if j >= 0})[:1]:
+        bc_, bstart, bstates = bcases[i]
+        ctx.violation("beat mode of a Part with time signatures %s (start state %s) under the history %s: states [use_musical_beat, [beats, beat_type, "
+                      "musical_beats]] after each operation %s -- an export changed the state, or a mode switch did not do what "
+                      "Model.C20_Beat computes" % (bc_["sigs"], bstart, bc_["history"], bstates), {"kind": "beat", "case": bc_, "start": bstart, "states": bstates})
+    if bfail == [-1]:
+        ctx.violation("Coq evaluation of the beat-mode model failed: " + bdetail[:600], {"kind": "coq"}, no_input=True)
+
+
     # ---- negative side + sensitivity of the observer -------------------------------------
     must, may = inplace_ops()
     n_neg = 12 if quick else 80
@@ -3464,6 +3829,27 @@ def replay(obj):
         print("result    :", res)
         print("argument  :", after, "(unchanged: %s)" % (after == r["case"]["rows"]))
         print("stored    :", r["result"], r["after"])
+        return 0
+    if r.get("kind") in ("track", "sanitize"):
+        print("case      :", r["case"])
+        if r["kind"] == "track":
+            before, out1, after1, out2, after2 = run_track(r["case"])
+            print("before    :", before)
+            print("outcome   :", out1, "| second call:", out2)
+            print("afterwards:", after1, "(unchanged: %s)" % (after1 == before and after2 == before))
+            print("stored    :", r["outcome"], r["after"])
+        else:
+            sb, sa, sn = run_sanitize(r["case"])
+            print("before    :", sb)
+            print("afterwards:", sa, "num_tracks", sn)
+            print("stored    :", r["after"], r["num_tracks"])
+        return 0
+    if r.get("kind") == "beat":
+        bstart, bstates, braised = run_beat(r["case"])
+        print("case      :", r["case"])
+        print("start     :", bstart)
+        print("states    :", bstates, "(exports raised: %s)" % braised)
+        print("stored    :", r["states"])
         return 0
     if r.get("kind") == "alias":
         before, after = run_alias(r["spec"])
